@@ -1718,6 +1718,17 @@ class Interp:
     if isinstance(container, SObj):
       m = self.getattr_(container, '__contains__', frame)
       return self.call(m, [item], {}, frame)
+    if isinstance(container, SBits) or (isinstance(item, SBits) and hasattr(container, 'value')):
+      # enum.Flag containment: `a in b`  <=>  a & b == a
+      w = container.z.size() if isinstance(container, SBits) else item.z.size()
+      zc = container.z if isinstance(container, SBits) else z3.BitVecVal(container.value, w)
+      if isinstance(item, SBits):
+        zi = item.z
+      elif hasattr(item, 'value') and isinstance(item.value, int):
+        zi = z3.BitVecVal(item.value, w)
+      else:
+        raise PyRaise(ExcVal(TypeError, ('unsupported operand type(s) for `in` on a Flag',)))
+      return simplify_concrete(SBool((zi & zc) == zi))
     if isinstance(container, SAny) or isinstance(item, SAny):
       return self.opaque_compare(ast.In, item, container)
     raise Unsupported(f'`in` on {container!r}')
